@@ -113,10 +113,6 @@ func (srv *Session) consumeSingleCommand(ctx context.Context, reader *buffer.Rea
 		return err
 	}
 
-	if srv.closing.Load() {
-		return nil
-	}
-
 	// NOTE: an error has been reported for an extended query message, all
 	// messages until the next Sync are read and discarded.
 	if srv.discarding && t != types.ClientSync && t != types.ClientTerminate {
@@ -124,8 +120,17 @@ func (srv *Session) consumeSingleCommand(ctx context.Context, reader *buffer.Rea
 	}
 
 	// NOTE: we increase the wait group by one in order to make sure that idle
-	// connections are not blocking a close.
+	// connections are not blocking a close. The command is admitted while
+	// holding the read lock so that a concurrent close either observes the
+	// command inside the wait group or the command observes the closing state.
+	srv.closeMu.RLock()
+	if srv.closing.Load() {
+		srv.closeMu.RUnlock()
+		return nil
+	}
+
 	srv.wg.Add(1)
+	srv.closeMu.RUnlock()
 	srv.logger.Debug("<- incoming command", slog.Int("length", length), slog.String("type", t.String()))
 	err = srv.handleCommand(ctx, conn, t, reader, writer)
 	srv.wg.Done()
